@@ -7,8 +7,8 @@ per call: the result (or exception class), every frame seen on the bus during th
 data), the peer's state afterwards and whether the call left the master's public settings (RESPONSE_TIMEOUT and
 every other public class / instance attribute of LssMaster) as it found them.  Time is virtual (shims for
 canopen.lss.queue and canopen.lss.time): silence costs nothing and "delay_ms" lets the peer answer later; two
-"clock": "real" sessions use real threads and the real queue.  ["net", "connect" | "disconnect" | "exit"] steps
-connect / disconnect the same Network object (python-can virtual bus) inside a session.  Long fast-scan logs are compared with the model through a 61-bit
+"clock": "real" sessions use real threads and the real queue.  ["net", "connect" | "disconnect" | "exit" | "bus"]
+steps connect / disconnect the same Network object (python-can virtual bus), or assign network.bus, inside a session.  Long fast-scan logs are compared with the model through a 61-bit
 polynomial hash ("trace": "hash"); the oracle always works on the full log.
 """
 import logging, struct
@@ -221,6 +221,9 @@ def _call(net, op):
             net.disconnect()
         elif op[1] == "exit":
             net.__exit__(None, None, None)
+        elif op[1] == "bus":                          # the application supplies the bus object itself
+            import can
+            net.bus = can.Bus(interface="virtual", channel=f"c18-{id(net)}")
         else:
             raise ValueError(op)
         return None
@@ -702,6 +705,39 @@ def gen_cases(rng, tier):
         p = slave(idt, mode=rng.choice((0, 0, 1)), node=rng.choice((255, 255, rng.randrange(1, 128))), store_err=rng.choice((0, 0, 1)))
         c = reconnect(p, blocks)
         if any(o[0] == "fast_scan" for o in c["ops"]):
+            c["trace"] = "hash"
+        cases.append(c)
+    # ---- the same Network object re-used after disconnect() / context-manager exit WITHOUT connect() (custom backend:
+    #      send_message overridden, frames fed through notify - the route of every session here), disconnect() on a
+    #      network that was never connected, and an application that assigns network.bus itself
+    def reuse(peer, ops, **kw):
+        return dict(kind="reuse", peer=peer, ops=ops, **kw)
+    scan_use = [["fast_scan"], ["inq_node"], ["inq_addr", 0x5D], ["cfg_node", 0x21], ["store"]]
+    cases.append(reuse(slave(idr), [["net", "disconnect"]] + scan_use))
+    cases.append(reuse(slave(idr), [["net", "exit"], ["fast_scan"]], trace="hash"))
+    cases.append(reuse(slave(idr), [["inq_node"], ["net", "disconnect"]] + scan_use + [["net", "exit"], ["global", 0], ["inq_node"], ["global", 1], ["inq_node"]]))
+    cases.append(reuse(slave(idr), [["net", "connect"], ["inq_node"], ["net", "disconnect"]] + scan_use))
+    cases.append(reuse(slave(idr), [["net", "connect"], ["net", "exit"], ["selective"] + idr, ["cfg_bit", 2], ["store"]]))
+    cases.append(reuse(slave(idr), [["net", "bus"], ["inq_node"], ["net", "disconnect"], ["net", "bus"]] + scan_use + [["net", "disconnect"]]))
+    cases.append(reuse(slave(idr, mode=1, node=9), [["net", "bus"], ["net", "connect"], ["inq_node"], ["net", "disconnect"], ["inq_node"], ["cfg_node", 3], ["store"]]))
+    cases.append(reuse(slave(idr, mode=1, node=9), [["net", "disconnect"], ["net", "disconnect"], ["inq_node"], ["inq_addr", 0x5A]]))
+    for _ in range({"quick": 30, "thorough": 250, "search": 80}[tier]):
+        idt = rand_ident(rng)
+        ops, connected = [], False          # connected = a notifier is running (connect() twice would leak the first)
+        for _ in range(rng.randrange(2, 5)):
+            t = rng.randrange(6)
+            if t == 0 and not connected:
+                ops.append(["net", "connect"]); connected = True
+            elif t == 1 and not connected:
+                ops.append(["net", "bus"])
+            elif t in (2, 3):
+                ops.append(["net", rng.choice(("disconnect", "exit"))]); connected = False
+            ops += [o for o in (rand_op(rng, idt) for _ in range(rng.randrange(1, 4))) if o[0] != "inject" or o[1] == SLAVE]
+        if not any(o[0] == "net" and o[1] in ("disconnect", "exit") for o in ops):
+            ops.insert(rng.randrange(len(ops)), ["net", "disconnect"])
+        p = slave(idt, mode=rng.choice((0, 0, 1)), node=rng.choice((255, 255, rng.randrange(1, 128))), store_err=rng.choice((0, 0, 1)))
+        c = reuse(p, ops)
+        if any(o[0] == "fast_scan" for o in ops):
             c["trace"] = "hash"
         cases.append(c)
     # ---- the harness' own RESPONSE_TIMEOUT on some modelled sessions (time is virtual, so any value is free)
